@@ -58,12 +58,42 @@ type c14Worker struct {
 	gid    atomic.Int64
 	in     chan *models.Item
 	out    chan *models.Item
-	taken  atomic.Int64 // items the worker has received from its input channel
-	passed atomic.Int64 // items the driver has received from its output channel
-	last   int          // position at the last observation
+	linked bool // its output channel is another worker's input channel
+	last   int  // position at the last observation
 }
 
-func (w *c14Worker) holding() bool { return w.taken.Load() > w.passed.Load() }
+type c14Link struct{ u, d, k int }
+
+// c14Links parses  link=<u>><d>:<k>,...  : worker u passes its items on to worker d through a
+// channel of capacity k (both archiver/postprocessor workers, u < d, chains only).
+func c14Links(in, stages string) (links []c14Link, raw string, ok bool) {
+	for _, f := range strings.Fields(in) {
+		if k, v, o := strings.Cut(f, "="); o && k == "link" {
+			raw = v
+		}
+	}
+	if raw == "" {
+		return nil, "", true
+	}
+	ups, downs := map[int]bool{}, map[int]bool{}
+	for _, ls := range strings.Split(raw, ",") {
+		var l c14Link
+		if n, err := fmt.Sscanf(ls, "%d>%d:%d", &l.u, &l.d, &l.k); n != 3 || err != nil {
+			return nil, raw, false
+		}
+		if l.u < 0 || l.u >= l.d || l.d >= len(stages) || l.k < 0 || l.k > 4 || ups[l.u] || downs[l.d] {
+			return nil, raw, false
+		}
+		for _, i := range []int{l.u, l.d} {
+			if stages[i] != 'a' && stages[i] != 'o' {
+				return nil, raw, false
+			}
+		}
+		ups[l.u], downs[l.d] = true, true
+		links = append(links, l)
+	}
+	return links, raw, true
+}
 
 type c14Ctl struct {
 	busy atomic.Bool  // a call is in progress (or blocked for good)
@@ -171,8 +201,8 @@ func (r *c14Run) quiesce() []c14G {
 				break
 			}
 			// a stage worker counts as settled only in its main select, in the acknowledgement,
-			// or - while it holds an item the driver has not taken back - anywhere it is parked
-			if g.marked && strings.Contains(g.text, ").worker(") && c14InAck(g) == 3 && !r.holdingGid(g.id) {
+			// or in the select that passes an item on
+			if g.marked && strings.Contains(g.text, ").worker(") && c14InAck(g) == 3 {
 				quiet = false
 				break
 			}
@@ -189,20 +219,12 @@ func (r *c14Run) quiesce() []c14G {
 	}
 }
 
-func (r *c14Run) holdingGid(id int64) bool {
-	for _, w := range r.ws {
-		if w.gid.Load() == id {
-			return w.holding()
-		}
-	}
-	return false
-}
-
 var c14SrcCache sync.Map // "file:line" -> bool (acknowledging send)
 
 // c14InAck decides from the worker goroutine's own stack where it is parked: in the
 // acknowledgement on ResumeCh (bare send, or a select whose first arm is that send) or in the
-// main select.  0 = main select, 1 = acknowledging, 3 = somewhere else.
+// main select, or in the select that passes a handled item on.  0 = main select,
+// 1 = acknowledging, 4 = passing an item on (busy), 3 = somewhere else.
 func c14InAck(g c14G) int {
 	lines := strings.Split(g.text, "\n")
 	for i, l := range lines {
@@ -226,10 +248,13 @@ func c14InAck(g c14G) int {
 							next = src[ln]
 						}
 						// the main select is the one that has the PauseCh arm
-						mainSel := false
+						mainSel, outSel := false, false
 						for k := ln; k < ln+6 && k < len(src); k++ {
 							if strings.Contains(src[k], "<-controlChans.PauseCh") {
 								mainSel = true
+							}
+							if strings.Contains(src[k], "outputCh <- seed") {
+								outSel = true
 							}
 						}
 						switch {
@@ -239,6 +264,8 @@ func c14InAck(g c14G) int {
 							res = 1
 						case strings.Contains(here, "select") && mainSel:
 							res = 0
+						case strings.Contains(here, "select") && outSel:
+							res = 4
 						}
 					}
 				}
@@ -251,9 +278,13 @@ func c14InAck(g c14G) int {
 }
 
 func c14Spawn(kind byte, w *c14Worker) {
-	in := make(chan *models.Item)
-	out := make(chan *models.Item)
-	w.in, w.out = in, out
+	if w.in == nil {
+		w.in = make(chan *models.Item)
+	}
+	if w.out == nil {
+		w.out = make(chan *models.Item)
+	}
+	in, out := w.in, w.out
 	on := func() { w.gid.Store(c14Goid()) }
 	switch kind {
 	case 'p':
@@ -310,7 +341,6 @@ func c14Feeder(w *c14Worker, abort <-chan struct{}, start <-chan struct{}, ready
 	it := models.NewItem("c14-item", &models.URL{Raw: "http://c14.invalid/"}, "")
 	select {
 	case w.in <- it:
-		w.taken.Add(1)
 	case <-abort:
 	}
 }
@@ -321,7 +351,6 @@ func c14Drainer(w *c14Worker, abort <-chan struct{}, start <-chan struct{}, read
 	c14Spin(jit)
 	select {
 	case <-w.out:
-		w.passed.Add(1)
 	case <-abort:
 	}
 }
@@ -389,9 +418,6 @@ func (r *c14Run) observe(gs []c14G) c14Obs {
 		default:
 			if g, ok := byID[w.gid.Load()]; ok {
 				code = c14InAck(g)
-				if code == 3 && w.holding() {
-					code = 4 // busy: inside an item
-				}
 			}
 		}
 		w.last = code
@@ -497,14 +523,34 @@ func c14CoqObs(o c14Obs) string {
 func c14ExecLocal(in string) (res Result, leak bool) {
 	stages, nc, rounds, ok := c14Parse(in)
 	if !ok {
-		return Result{Term: "PC 0 0 []", Tags: []string{"malformed"}}, false
+		return Result{Term: "PC 0 0 [] []", Tags: []string{"malformed"}}, false
+	}
+	links, _, lok := c14Links(in, stages)
+	if !lok {
+		return Result{Term: "PC 0 0 [] []", Tags: []string{"malformed"}}, false
+	}
+	for _, round := range rounds { // an item of a linked upstream worker goes to its downstream worker, never to the driver
+		for _, op := range round {
+			for _, l := range links {
+				if op.kind == 'D' && op.arg == l.u {
+					return Result{Term: "PC 0 0 [] []", Tags: []string{"malformed"}}, false
+				}
+			}
+		}
 	}
 	pause.VerifC14Reset()
 	r := &c14Run{abort: make(chan struct{})}
 	for i := 0; i < len(stages); i++ {
-		w := &c14Worker{kind: stages[i]}
+		r.ws = append(r.ws, &c14Worker{kind: stages[i]})
+	}
+	var lterms []string
+	for _, l := range links {
+		ch := make(chan *models.Item, l.k)
+		r.ws[l.u].out, r.ws[l.d].in, r.ws[l.u].linked = ch, ch, true
+		lterms = append(lterms, fmt.Sprintf("(%d, %d, %d)", l.u, l.d, l.k))
+	}
+	for i, w := range r.ws {
 		c14Spawn(stages[i], w)
-		r.ws = append(r.ws, w)
 	}
 	for i := 0; i < nc; i++ {
 		r.cs = append(r.cs, &c14Ctl{})
@@ -558,13 +604,13 @@ func c14ExecLocal(in string) (res Result, leak bool) {
 			case 'H':
 				// only a worker seen in its main select takes an item now (a busy, paused or
 				// departed one does not; the model's LWork is not enabled there either)
-				if w := r.ws[op.arg]; w.last == 0 && !w.holding() {
+				if w := r.ws[op.arg]; w.last == 0 {
 					nH++
 					ready.Add(1)
 					go c14Feeder(w, r.abort, start, &ready, jitter())
 				}
 			case 'D':
-				if w := r.ws[op.arg]; w.last == 4 && w.holding() {
+				if w := r.ws[op.arg]; w.last == 4 && !w.linked {
 					ready.Add(1)
 					go c14Drainer(w, r.abort, start, &ready, jitter())
 				}
@@ -614,6 +660,9 @@ func c14ExecLocal(in string) (res Result, leak bool) {
 	if nH > 0 {
 		tags = append(tags, "busy-workers")
 	}
+	if len(links) > 0 {
+		tags = append(tags, fmt.Sprintf("linked-workers:%d", len(links)))
+	}
 	kinds := map[byte]bool{}
 	for i := 0; i < len(stages); i++ {
 		kinds[stages[i]] = true
@@ -628,7 +677,7 @@ func c14ExecLocal(in string) (res Result, leak bool) {
 		tags = append(tags, "quiescence-timeout")
 	}
 	return Result{
-		Term:       fmt.Sprintf("PC %d %d %s", len(stages), nc, coqList(terms)),
+		Term:       fmt.Sprintf("PC %d %d %s %s", len(stages), nc, coqList(lterms), coqList(terms)),
 		Tags:       tags,
 		Nontrivial: pausedLive && afterPause,
 	}, leak
@@ -693,7 +742,7 @@ func execPause(in string) Result {
 		c14Cur.stop()
 		c14Cur = nil
 		if attempt == 1 {
-			return Result{Term: "PC 0 0 [([], (Ob [] false [] 0 0 true))]", Tags: []string{"child-crashed"}}
+			return Result{Term: "PC 0 0 [] [([], (Ob [] false [] 0 0 true))]", Tags: []string{"child-crashed"}}
 		}
 	}
 	res, _ := c14ExecLocal(in)
@@ -798,6 +847,66 @@ func c14Overlap(r *Rng, conc bool) string {
 	return fmt.Sprintf("w=%s c=%d ops=%s", string(st), nc, strings.Join(ops, sep))
 }
 
+// c14Linked: workers that feed each other.  A chain of 2-3 archiver/postprocessor workers
+// (worker i passes its items to worker i+1 through a channel of capacity k; the last one
+// delivers to the driver), optionally a few independent workers behind them.  The tail is made
+// busy, the channels are filled until every upstream worker is stuck in its hand-over, then
+// Pause, the tail's item is taken (the tail comes back to a select with BOTH its pause token and
+// the next item ready), Resume, and the rest is drained, with random ops around.
+func c14Linked(r *Rng, conc bool) string {
+	n := 2 + r.Intn(2)
+	k := 0
+	if conc {
+		k = r.Intn(3)
+	}
+	st := make([]byte, n)
+	var links []string
+	for i := range st {
+		st[i] = "ao"[r.Intn(2)]
+		if i+1 < n {
+			links = append(links, fmt.Sprintf("%d>%d:%d", i, i+1, k))
+		}
+	}
+	stages := string(st) + c14Stages(r, r.Intn(3))
+	nw := len(stages)
+	nc := 1 + r.Intn(3)
+	t := n - 1
+	ops := []string{fmt.Sprintf("H%d", t)}
+	for u := t - 1; u >= 0; u-- {
+		for j := 0; j <= k; j++ {
+			ops = append(ops, fmt.Sprintf("H%d", u))
+		}
+	}
+	if r.Chance(25) {
+		ops = append(ops, c14RandOp(r, nw, nc))
+	}
+	ops = append(ops, fmt.Sprintf("P%d", r.Intn(nc)), fmt.Sprintf("D%d", t))
+	if r.Chance(20) {
+		ops = append(ops, fmt.Sprintf("P%d", r.Intn(nc)))
+	}
+	ops = append(ops, fmt.Sprintf("R%d", r.Intn(nc)))
+	for j := (k+1)*t + 1 + r.Intn(2); j > 0; j-- {
+		ops = append(ops, fmt.Sprintf("D%d", t))
+		if r.Chance(15) {
+			ops = append(ops, c14RandOp(r, nw, nc))
+		}
+	}
+	sep := ";"
+	if conc { // some neighbours are issued together
+		var rs []string
+		for i := 0; i < len(ops); i++ {
+			if i+1 < len(ops) && r.Chance(25) {
+				rs = append(rs, ops[i]+","+ops[i+1])
+				i++
+			} else {
+				rs = append(rs, ops[i])
+			}
+		}
+		ops = rs
+	}
+	return fmt.Sprintf("w=%s c=%d link=%s ops=%s", stages, nc, strings.Join(links, ","), strings.Join(ops, sep))
+}
+
 func c14RandOp(r *Rng, nw, nc int) string {
 	switch x := r.Intn(20); {
 	case x < 7:
@@ -826,6 +935,9 @@ func genPause(r *Rng, i int, tier string) string {
 	}
 	if i%3 == 0 {
 		return c14Overlap(r, false)
+	}
+	if i%3 == 1 {
+		return c14Linked(r, false)
 	}
 	nw := r.Intn(7)
 	if r.Chance(10) {
@@ -862,6 +974,9 @@ func genPauseConc(r *Rng, i int, tier string) string {
 	}
 	if i%4 == 1 {
 		return c14Overlap(r, true)
+	}
+	if i%4 == 2 {
+		return c14Linked(r, true)
 	}
 	nw := 1 + r.Intn(6)
 	nc := 2 + r.Intn(3)
@@ -901,6 +1016,7 @@ func shrinkPause(in string) []string {
 	if !ok {
 		return nil
 	}
+	_, rawLinks, _ := c14Links(in, stages)
 	render := func(st string, nc int, rs [][]c14Op) string {
 		var parts []string
 		for _, rd := range rs {
@@ -914,7 +1030,11 @@ func shrinkPause(in string) []string {
 			}
 			parts = append(parts, strings.Join(ops, ","))
 		}
-		return fmt.Sprintf("w=%s c=%d ops=%s", st, nc, strings.Join(parts, ";"))
+		lk := ""
+		if rawLinks != "" {
+			lk = " link=" + rawLinks
+		}
+		return fmt.Sprintf("w=%s c=%d%s ops=%s", st, nc, lk, strings.Join(parts, ";"))
 	}
 	var out []string
 	// drop a round
@@ -935,7 +1055,7 @@ func shrinkPause(in string) []string {
 		}
 	}
 	// drop the last worker when no op names it
-	if n := len(stages); n > 0 {
+	if n := len(stages); n > 0 && rawLinks == "" {
 		used := false
 		for _, rd := range rounds {
 			for _, o := range rd {
@@ -987,7 +1107,7 @@ func init() {
 		Header:         c14Header,
 		CaseType:       "pcase",
 		Footer:         stdFooter,
-		Rule:           "one case = a population of real stage workers (any mix of the four stages), 1-3 controllers and a SEQUENCE of Pause_c / Resume_c / worker-cancel / shutdown invocations, each followed by a wait for quiescence; all words of length <= 3 (thorough <= 4) over {P0,P1,R0,R1,S0,S1,X} on 2 workers, then random sequences of 4-11 ops on 0-31 workers in which archiver/postprocessor workers are also made BUSY (handed an item that the driver takes back later), a third of them in the shape 'Pause issued while a Resume is in flight waiting for a busy worker'; distinct by input text; non-trivial when a Pause reaches at least one live worker and a Resume or a cancellation follows it",
+		Rule:           "one case = a population of real stage workers (any mix of the four stages), 1-3 controllers and a SEQUENCE of Pause_c / Resume_c / worker-cancel / shutdown invocations, each followed by a wait for quiescence; all words of length <= 3 (thorough <= 4) over {P0,P1,R0,R1,S0,S1,X} on 2 workers, then random sequences of 4-11 ops on 0-31 workers in which archiver/postprocessor workers are also made BUSY (handed an item that the driver takes back later), a third of them in the shape 'Pause issued while a Resume is in flight waiting for a busy worker', a third with workers that FEED EACH OTHER (chains of 2-3 archiver/postprocessor workers joined by a channel, upstream workers stuck in their hand-over when the Pause arrives); distinct by input text; non-trivial when a Pause reaches at least one live worker and a Resume or a cancellation follows it",
 		Gen:            genPause,
 		Exec:           execPause,
 		Shrink:         shrinkPause,
@@ -999,7 +1119,7 @@ func init() {
 		Header:         c14Header,
 		CaseType:       "pcase",
 		Footer:         "\nDefinition DIFF := Eval vm_compute in cdiffs cases.\nPrint DIFF.\nDefinition MON := Eval vm_compute in mons cases.\nPrint MON.\n",
-		Rule:           "one case = real stage workers and ROUNDS of simultaneously issued invocations (calls from distinct controllers, cancellations, shutdown) with a wait for quiescence after each round; monitors only; every fourth case is the Unsubscribe/Pause race shape (16-48 workers, Pause together with shutdown), every fourth the Pause-during-Resume-with-a-busy-worker shape; non-trivial as for the sequential driver",
+		Rule:           "one case = real stage workers and ROUNDS of simultaneously issued invocations (calls from distinct controllers, cancellations, shutdown) with a wait for quiescence after each round; monitors only; every fourth case is the Unsubscribe/Pause race shape (16-48 workers, Pause together with shutdown), every fourth the Pause-during-Resume-with-a-busy-worker shape, every fourth a chain of workers that feed each other through channels of capacity 0-2; non-trivial as for the sequential driver",
 		Gen:            genPauseConc,
 		Exec:           execPause,
 		Shrink:         shrinkPause,
